@@ -12,7 +12,15 @@ import re
 import docgen
 import vlib
 from checks import common
-from checks.c17 import place, N
+from checks.c17 import place as _place, N
+
+
+def place(tag, node):
+    """as C17's placement, but a wrapper gets two sections whose widths depend on the wrapper's box"""
+    if tag == "mj-wrapper" and not node["children"]:
+        sec = lambda: N("mj-section", kids=[N("mj-column", kids=[N("mj-image", {"src": "https://x/a.png"})]), N("mj-column", kids=[N("mj-text", text="t")])])
+        node["children"] = [sec(), sec()]
+    return _place(tag, node)
 
 LEVELS = ["class", "tagdef", "tagdef>all", "class>tagdef", "elem>class"]
 
@@ -93,7 +101,12 @@ def build(tag, attr, v, w, level):
 
 
 def matrix(ck, hb, facts):
-    table = facts["allowed_table"]
+    table = dict(facts["allowed_table"])
+    if "mj-wrapper" not in table and "mj-section" in table:
+        # mj-wrapper has no entry in the validation table (C17 finding) but resolves the same attributes as a section
+        table["mj-wrapper"] = {a: t for a, t in table["mj-section"].items() if a in (
+            "background-color", "border", "border-bottom", "border-left", "border-right", "border-top", "border-radius", "padding", "padding-bottom",
+            "padding-left", "padding-right", "padding-top", "text-align", "css-class")}
     jobs, meta = [], []
     rng = ck.rng
     for tag in sorted(table):
